@@ -26,6 +26,11 @@ A tree is a JSON-able nested list; the first element is the node kind:
   ["subq", kind]                     fixed scalar subqueries over t2
   ["func", name, [X...]]             abs coalesce length lower upper
   ["const", "true"|"false"]          sql true()/false() (only under and/or/case-when)
+  ["const", "pytrue"|"pyfalse"]      the Python constants True / False handed to and_()/or_()
+                                     (only under and/or; the grouped form uses (true()) / (false()))
+  and/or may have a single operand (``and_(x)``); ``Gen.folding`` produces the
+  constant-folding shapes: conjunctions of plain boolean operands with neutral /
+  absorbing constants, usually under NOT.
 
 Types: "i" integer, "s" string, "b" boolean, "f" float (only produced by truediv /
 cast to float; kept away from flattened + and * chains, see ``gen``).
@@ -361,9 +366,48 @@ class Gen:
         t = r.choice(("i", "i", "i", "s", "s", "b", "f"))
         return t, self.gen(t, d - 1), self.gen(t, d - 1)
 
+    def plain_bool(self, d):
+        """a boolean-typed operand that is NOT an operator expression: column, bind,
+        boolean-typed CASE, boolean function (these get the AsBoolean wrapper under AND/OR
+        on backends without a native boolean)"""
+        r = self.rng
+        x = r.random()
+        if x < 0.45:
+            return ["col", r.choice(BOOL_COLS)]
+        if x < 0.65:
+            whens = [[self.gen("b", max(d - 1, 0)), ["col", r.choice(BOOL_COLS)]]]
+            return ["case", whens, ["col", r.choice(BOOL_COLS)] if r.random() < 0.7 else None]
+        if x < 0.85:
+            return ["func", "coalesce", [["col", r.choice(BOOL_COLS)], ["col", r.choice(BOOL_COLS)]]]
+        return ["lit", "b", r.choice([True, False, None])]
+
+    def folding(self, d):
+        """constant-folding shapes: and_/or_ over one or two plain boolean operands (or a
+        generated one) plus neutral / absorbing constants in any position, also the
+        single-operand conjunction; usually negated, sometimes doubly"""
+        r = self.rng
+        k = r.choice(("and", "or"))
+        neutral = {"and": ("true", "pytrue"), "or": ("false", "pyfalse")}[k]
+        absorbing = {"and": ("false", "pyfalse"), "or": ("true", "pytrue")}[k]
+        kids = [self.plain_bool(d) if r.random() < 0.8 else self.gen("b", d - 1)]
+        if r.random() < 0.25:
+            kids.append(self.plain_bool(d) if r.random() < 0.6 else self.gen("b", d - 1))
+        for _ in range(r.choice((0, 1, 1, 1, 2))):
+            c = ["const", r.choice(neutral) if r.random() < 0.85 else r.choice(absorbing)]
+            kids.insert(r.randrange(len(kids) + 1), c)
+        n = [k, kids]
+        x = r.random()
+        if x < 0.65:
+            n = ["not", n]
+            if r.random() < 0.15:
+                n = ["not", n]
+        return n
+
     def gen_b(self, d):
         r = self.rng
         x = r.random()
+        if r.random() < 0.09:
+            return self.folding(d)
         if x < 0.22:
             t, L, R = self.cmp_operands(d)
             return ["bin", r.choice(CMP), L, R]
@@ -502,7 +546,9 @@ def build(node, env, grouped=False):
         if k == "lit":
             return W(sa.literal(n[2], env.types[n[1]]))
         if k == "const":
-            return W(sa.true() if n[1] == "true" else sa.false())
+            if n[1] in ("pytrue", "pyfalse") and not grouped:
+                return n[1] == "pytrue"  # a bare Python bool, coerced by and_() / or_()
+            return W(sa.true() if n[1] in ("true", "pytrue") else sa.false())
         if k == "bin":
             return W(_BINOPS[n[1]](B(n[2]), B(n[3])))
         if k == "neg":
@@ -724,9 +770,14 @@ def known_patterns(node, literal=True):
     return [o for o in order if o in found]
 
 
-def sanitize(node):
-    """rewrite a tree so that it contains none of the known-defect patterns (the bulk
-    of the workload must stay free of them, otherwise they would mask new differences)."""
+OPEN_PATTERNS = frozenset({"concat-operand-arith-ungrouped"})
+
+
+def sanitize(node, patterns=OPEN_PATTERNS):
+    """rewrite a tree so that it contains none of the given known-defect patterns (the
+    bulk of the workload must stay free of the still-open ones, otherwise they would
+    mask new differences).  Patterns whose defect has been repaired are no longer
+    removed: they are ordinary workload now (default: only the open ones)."""
     import copy
 
     n = copy.deepcopy(node)
@@ -738,22 +789,22 @@ def sanitize(node):
         k = n[0]
         for slot in _child_slots(n):
             fix(_get(n, slot))
-        if k == "neg" and n[1][0] == "lit" and isinstance(n[1][2], (int, float)) and not isinstance(n[1][2], bool) and n[1][2] < 0:
+        if "neg-of-negative-literal" in patterns and k == "neg" and n[1][0] == "lit" and isinstance(n[1][2], (int, float)) and not isinstance(n[1][2], bool) and n[1][2] < 0:
             n[1][2] = -n[1][2]
-        if k == "not" and n[1][0] == "is":
+        if "negation-of-is-keeps-is" in patterns and k == "not" and n[1][0] == "is":
             inner = n[1]
             n[:] = ["is", inner[1], inner[2], not inner[3]]
             k = "is"
-        if k == "bin" and n[1] == "concat":
+        if "concat-operand-arith-ungrouped" in patterns and k == "bin" and n[1] == "concat":
             for i in (2, 3):
                 if OPCLASS.get(opname(n[i])) == "arith":
                     n[i] = ["cast", n[i], "s"] if type_of(n[i]) != "f" else wrap(n[i])
-        if k in _OPERAND_PARENTS:
+        if "asboolean-operand-ungrouped" in patterns and k in _OPERAND_PARENTS:
             for slot in _child_slots(n):
                 c = _get(n, slot)
                 if _is_boolop_operand(c) and not (k == "in" and slot[0] == 2):
                     _set(n, slot, wrap(c))
-        if k == "between":
+        if "between-bound-ungrouped" in patterns and k == "between":
             for i in (2, 3):
                 c = n[i]
                 if opname(c) and type_of(c) == "b" and OPCLASS[opname(c)] not in ("case", "cast", "func", "subq"):
